@@ -39,10 +39,10 @@ STRUCT_CHECKER = ("fun c => match c with (a, o, ts, degs, names) => "
                   "forallb (fun d => opt_eqb Nat.eqb (degree (chain a o ts)) d) degs "
                   "&& same_set (vars (chain a o ts)) names && list_eqb String.eqb (sort_vars (dedup names)) names end")
 STRUCT_TYPE = "nat * bop * list expr * list (option nat) * list string"
-NUM_CHECKER = ("fun c => match c with (a, o, ts, wrt, pts, obs) => "
+NUM_CHECKER = ("fun c => match c with (a, o, ts, wrt, pts, ppts, obs) => "
                "let e := chain a o ts in "
-               "worst (map (num_check (match wrt with Some v => grad ln2c ln10c v e | None => e end) pts []) obs) end")
-NUM_TYPE = "nat * bop * list expr * option string * list (string * Q) * list Q"
+               "worst (map (num_check (match wrt with Some v => grad ln2c ln10c v e | None => e end) pts ppts) obs) end")
+NUM_TYPE = "nat * bop * list expr * option string * list (string * Q) * list (string * Q) * list Q"
 ALL_FN = ["sin", "cos", "tan", "exp", "log", "log2", "log10", "sqrt", "tanh", "sinh", "cosh", "asin", "acos", "atan",
           "asinh", "acosh", "atanh", "abs"]
 
@@ -58,6 +58,20 @@ def base_terms(kind, n, pool, r):
             out.append(v)
         elif kind == "sq":
             out.append(v ** 2)
+        elif kind == "param":
+            out.append(pool.params[i % len(pool.params)] * v + (i % 3))
+        elif kind == "divc":
+            out.append(r.choice([1, 3, 0.5]) * v / (gen.Constant(4.0) / 2))          # denominator is a constant EXPRESSION, not a literal
+        elif kind == "negpow":
+            out.append((v + 2) ** -1 * 3)
+        elif kind == "fracpow":
+            out.append((v + 2) ** 0.5)
+        elif kind == "pow01":
+            out.append(v ** (i % 2) + (v + 1) ** 1)
+        elif kind == "cdiv":
+            out.append(2 / (v + 3))
+        elif kind == "cexpr":
+            out.append((gen.Constant(2.0) * 3 - 1) * v + gen.Constant(2.0) ** 3)
         elif kind.startswith("fn:"):
             f = kind[3:]
             arg = v * 0.125 + (1.5 if f == "acosh" else 0.25)
@@ -87,6 +101,10 @@ def run(rep: vk.Report):
                 continue
             n = rng.choice(shallow_sizes)
             plan.append((kind, op, n, rng.choice(["left", "balanced"])))
+    # term kinds that exercise each rule of the degree analysis and the call-time reading of parameters, right at the switch depth
+    for kind in ["param", "divc", "negpow", "fracpow", "pow01", "cdiv", "cexpr"]:
+        for op, n in ([("+", 401), ("-", 400)] if quick else [("+", 399), ("+", 400), ("+", 401), ("-", 400), ("-", 900), ("*", 401)]):
+            plan.append((kind, op, n, "left" if op != "+" or quick else rng.choice(["left", "balanced"])))
     for kind in (["lin", "vec", "fn:atan", "fn:log2"] if quick else ["lin", "var", "sq", "vec", "fn:sin", "fn:atan", "fn:log2"]):
         for n in deep_sizes:
             plan.append((kind, "+", n, "left"))
@@ -98,7 +116,7 @@ def run(rep: vk.Report):
     sys.setrecursionlimit(1000)
     for kind, op, n, assoc in plan:
         r = random.Random(rng.random())
-        pool = gen.Pool(r, with_matrices=False)
+        pool = gen.Pool(r, with_matrices=False, with_params=(kind == "param"))
         terms = base_terms(kind, n, pool, r)
         if op in ("*", "/"):
             # keep products numerically tame: factors near 1
@@ -142,6 +160,7 @@ def run(rep: vk.Report):
                         if not deep:
                             step = "compile(value)"
                             vfn = C.compile_expression(ee, V)
+                            o["_vfn"], o["_gfn"], o["_ee"] = vfn, (gfn if o["grad"] is not None else None), ee
                             step = "call compiled value"
                             o["compiled"] = common.fval(vfn(xarr))
                             step = "evaluate"
@@ -168,8 +187,9 @@ def run(rep: vk.Report):
             if bad:
                 shape_diffs += 1
                 rep.violation({"kind": "shape", "obligation": "observations agree across associations",
-                               "witness": {"base": kind, "op": op, "n": n, "shape": sh, "this": {k: o[k] for k in o if k != "vars"},
-                                           "left": {k: ref[k] for k in ref if k != "vars"}}}, concrete=True)
+                               "witness": {"base": kind, "op": op, "n": n, "shape": sh,
+                                           "this": {k: o[k] for k in o if k != "vars" and not k.startswith("_")},
+                                           "left": {k: ref[k] for k in ref if k != "vars" and not k.startswith("_")}}}, concrete=True)
         # forced thresholds on a moderate tree: identical derivative trees and degrees
         if n <= 401:
             ee = shapes["left"]
@@ -189,16 +209,37 @@ def run(rep: vk.Report):
                                            "degrees": [res[0][1], res[1][1]]}}, concrete=True)
         o = obs[assoc]
         a_id = common.ASSOC[assoc]
+        dg = o["degree"]
+        if dg is not None and not (isinstance(dg, (int, np.integer)) and not isinstance(dg, bool) and dg >= 0):
+            rep.violation({"kind": "correspondence", "obligation": "a reported degree is None or a natural number",
+                           "witness": {"base": kind, "op": op, "n": n, "association": assoc, "degree": repr(dg)}}, concrete=True)
+            continue
+        ppts0 = {pp.name: float(pp.value) for pp in pool.params}
+        if kind == "param" and not deep and o.get("_vfn") is not None:
+            # Parameters re-set AFTER compilation: the deep-tree callables must read them at call time
+            for pp in pool.params:
+                pp.set(float(pp.value) + 1.75)
+            ppts1 = {pp.name: float(pp.value) for pp in pool.params}
+            with np.errstate(all="ignore"):
+                vals1 = [common.fval(o["_vfn"](xarr)), common.fval(o["_ee"].evaluate(pt))]
+                g1 = common.fval(o["_gfn"](xarr)) if o.get("_gfn") is not None else None
+            if all(v is not None for v in vals1):
+                nums.append(f"({a_id}%nat, {ser.BOPS[op]}, {tts}, None, {common.pts_term(pt)}, {common.pts_term(ppts1)}, {ser.lst(ser.q(v) for v in vals1)})")
+                nmeta.append({"what": "value after Parameter.set() on the compiled deep tree", "base": kind, "op": op, "n": n, "association": assoc,
+                              "values": vals1, "params": ppts1})
+            if g1 is not None:
+                nums.append(f"({a_id}%nat, {ser.BOPS[op]}, {tts}, (Some {ser.s(names[0])}), {common.pts_term(pt)}, {common.pts_term(ppts1)}, [{ser.q(g1)}])")
+                nmeta.append({"what": "gradient after Parameter.set()", "base": kind, "op": op, "n": n, "association": assoc, "value": g1, "params": ppts1})
         structs.add(f"({a_id}%nat, {ser.BOPS[op]}, {tts}, [{ser.opt_nat(o['degree'])}], {ser.lst(ser.s(v) for v in o['vars'])})",
                     {"base": kind, "op": op, "n": n, "association": assoc, "degree": o["degree"]},
                     kinds={kind, op, assoc, f"n{n}"})
         if not deep or kind in ("lin", "var"):
             vals = [o[k] for k in ("compiled", "evaluate") if o.get(k) is not None]
             if vals and not deep:
-                nums.append(f"({a_id}%nat, {ser.BOPS[op]}, {tts}, None, {common.pts_term(pt)}, {ser.lst(ser.q(v) for v in vals)})")
+                nums.append(f"({a_id}%nat, {ser.BOPS[op]}, {tts}, None, {common.pts_term(pt)}, {common.pts_term(ppts0)}, {ser.lst(ser.q(v) for v in vals)})")
                 nmeta.append({"what": "value", "base": kind, "op": op, "n": n, "association": assoc, "values": vals})
             if o.get("grad") is not None:
-                nums.append(f"({a_id}%nat, {ser.BOPS[op]}, {tts}, (Some {ser.s(names[0])}), {common.pts_term(pt)}, [{ser.q(o['grad'])}])")
+                nums.append(f"({a_id}%nat, {ser.BOPS[op]}, {tts}, (Some {ser.s(names[0])}), {common.pts_term(pt)}, {common.pts_term(ppts0)}, [{ser.q(o['grad'])}])")
                 nmeta.append({"what": "gradient", "base": kind, "op": op, "n": n, "association": assoc, "value": o["grad"]})
     sfails = structs.run(shard=4)
     nfails, nund = common.run_classify(IMPORTS, DEFS, NUM_TYPE, nums, NUM_CHECKER, shard=4) if nums else ([], [])
